@@ -8,6 +8,34 @@ CHECKS = {
    technique="runtime monitor: garble+eval on generated/parsed circuits with monitor-driven permute bits, judged by an independent bit-sliced truth-table evaluator",
    text="Exploration: the real Garble/Eval/Compute run on thousands of generated circuits (all gate types, wire reuse, fan-out) with steered point-and-permute bits, all or sampled inputs and all key sizes; every output label is decoded and compared with an independent evaluator. Held-on-K-executions evidence, not a proof.",
    note="Trusts the harness's 20-line bit-sliced evaluator (refc) as the meaning of plain evaluation; input labels are picked by the monitor from Garbled.Wires."),
+ "C06": dict(level="exploration", sec="4/C06",
+   technique="runtime monitor at the ot.OT / IKNP API boundary: sender wires vs receiver labels, monitor-chosen Delta, ideal base OT",
+   text="Exploration: every OT implementation (RSA, CO, COT, ROT; semi-honest/malicious; shared/unshared) is run sender against receiver over three transports for boundary batch sizes, several batches per instance and fixed choice patterns; raw IKNP (label and packed-bit form) is run over an ideal base OT with Delta chosen by the monitor so that Delta_0=0/1 are both driven; CO helpers on four curves. Oracle is exact and per position.",
+   note="Both parties run in one process; the ideal base OT under raw IKNP is harness code."),
+ "C07": dict(level="exploration", sec="4/C07",
+   technique="runtime monitor: builders called the two ways the code base calls them, compiled circuits evaluated bit-sliced (exhaustive operands for small widths) against math/big",
+   text="Exploration with exhaustive sub-spaces: every builder x both targets x both call modes x all width pairs 1..5 (quick) / 1..8 (thorough) x five result widths with ALL operand values when they total <= 12 bits, plus widths 15..130 and every Karatsuba threshold with boundary/random operands. Known findings (subtractor sign fill, Goldschmidt inexactness) are keyed by call-site class so other failures still fail the check.",
+   note="math/big is the specification; divisor 0 and out-of-range index excluded as the property says; Karatsuba limits below 8 are not driven (the code base never passes them)."),
+ "C13": dict(level="exploration", sec="4/C13",
+   technique="runtime monitor: generated argument shapes/values through IOArg.Parse/Set, Sizes/InputSizes, mpc.Result and IO.Split against an independent bit-level encoder",
+   text="Exploration: generated compound/array/scalar argument shapes (widths 1..130, 0-length arrays, short literals) with boundary values in all spellings; bits compared with the harness's own encoder, non-interference by changing one member, size inference, decode/repeat/no-mutation of results.",
+   note="The harness's encoder (little-endian two's complement per element, declaration order) is the specification; array literals are generated only in hex, the one spelling whose width is unambiguous."),
+ "C14": dict(level="fault_enumeration", sec="4/C14",
+   technique="runtime monitor: round trips of generated circuits; layout-aware mutation of valid files (all truncations, all single-bit flips for small files, field splicing) judged by a well-formedness checker; panic/hang detection",
+   text="Fault enumeration on small files (every truncation point and every single-bit flip of files <= 260 bytes, every count/length field set to chosen values) and sampled on larger ones, for both parsers; plus round trips of generated and compiled circuits with typed/compound/long-named I/O. Oracle: error or well-formed circuit; panic or 90 s hang is a violation.",
+   note="Files that declare a size above 10^6 are outside the property's precondition and skipped (counted). Well-formedness is exactly what the statement promises (defined-before-use, every wire assigned)."),
+ "C15": dict(level="fault_enumeration", sec="4/C15",
+   technique="fault injection in transit (TamperIO on the sender) over a fresh malicious-mode IKNP session per fault; correlation oracle; independent shadow receiver with its own carry-less multiplier in honest runs",
+   text="Fault enumeration: in thorough every (column,row) single-bit flip of the 64-row payload matrix and of the 256-row check matrix (40960 sessions), every bit of seed/x/t0/t1, plus double/column/row/k-subset flips and COT/ROT-level faults for several n; quick samples the same space. Oracle: sender error or correlation intact for the receiver's original choices. Honest runs must not abort and must match an independently recomputed receiver.",
+   note="Faults are bit flips in transit, not an adaptive adversary; the base OT is an ideal in-memory OT (harness code) so that the extension itself is what is under test."),
+ "C18": dict(level="exploration", sec="4/C18",
+   technique="runtime monitor over the round API: deterministic per-round randomness, encode/decode subsets, one OS process per round, foreign-session/curve objects, truncation sweeps and mutations with recover()",
+   text="Exploration (truncation sweeps are exhaustive for the small encodings): protocol runs on four curves against crypto/sha256, all 31 restart subsets across cases with byte-identical transcripts, real process-per-round runs exchanging files, fixed encoded sizes, rejection of foreign session/curve objects, every truncation of the small encodings, mutations that must never panic a decoder or the consuming round.",
+   note="crypto/sha256 is the reference; mutated-but-accepted messages are not required to be rejected (a flipped label is a well-formed message)."),
+ "C20": dict(level="exploration", sec="4/C20",
+   technique="runtime monitor at the vole/bmr API: both parties' return values recombined with math/big",
+   text="Exploration: VOLE for boundary vector lengths (1..2000 across extension chunks), nine moduli incl. 2 and 2^256-189, boundary elements and values >= p, CO and ideal base OT, two transports, several Mul calls per instance; bmr.Fx/Fxk exhaustively over (a,b) and label patterns with CO and COT. Oracle: u-r == x*y mod p per position; r xor x_b == a*b / b*s.",
+   note="math/big is the specification; both parties in one process."),
 }
 PENDING = {}
 def main():
